@@ -38,6 +38,7 @@ class FunctionContract:
         self.name = name or qual.split(":")[1]
         self.expect_paths = expect_paths
         self.runner = None           # callable(I, st, info, ctx) -> results; replaces the plain call
+        self.clause_prefixes = None  # keep only obligations whose clause name starts with one of these
         self.required = False        # True: the function's *name* is part of the spec (missing = refuted)
         self.static_replay = None    # replay script used for every refuted obligation of this contract
         self.static_witness = None
@@ -217,6 +218,8 @@ def verify_function(contract, sources=None, timeout_ms=10000):
             rep["verdicts"].append(Verdict(contract.name + "/post[path %d]" % idx, "out_of_reach", note=str(e)).to_dict())
             continue
         how = ("raise:%s@%s" % (oc.cls, oc.origin)) if isinstance(oc, Raise) else "return"
+        if contract.clause_prefixes is not None:
+            clauses = [(cn, g) for (cn, g) in clauses if any(cn.startswith(p) for p in contract.clause_prefixes)]
         for (cn, goal) in clauses:
             obs.append(("%s/%s[path %d %s]" % (contract.name, cn, idx, how), q, goal, oc))
     rep["path_kinds"] = kinds
